@@ -9,6 +9,9 @@ heavy tails, candidates around every tau*n-th order statistic, and one
 (n, 7) matrix of estimates against the exact loss element by element.
 Part "pointwise": every (observations, estimates, taus) triple of small
 (n, k) shapes in every accepted input layout against the exact pinball loss.
+Part "scaled": the small pointwise cases with observations and estimates
+multiplied by a common factor (1e-300 .. 1e300) and passed as float64, float32
+and integer arrays, against the exact pinball loss of the scaled values.
 Part "shapes": every combination of array shapes up to 4 x 4; documented
 layouts must work, size-inconsistent ones must raise ValueError.
 Part "percent": mape / bias (c19_percent.py).
@@ -40,42 +43,73 @@ RULE = ("minimiser: every sequence of 1..L values from {-2, 0, 1, 3.5, 100} "
         "constants = the distinct values up to two places around each "
         "tau*n-th order statistic; plus quantile_score and "
         "mean_quantile_score of the (n, 7) matrix of rotated samples against "
-        "the exact loss of every element. pointwise: every (y in V^n, "
+        "the exact loss of every element, with y_tau and y_test as every "
+        "pair of {float64, float32, int64, int32} arrays. pointwise: every "
+        "(y in V^n, "
         "estimates in V^(n x k), taus in T^k or E^k ordered with repetition) "
         "for (n, k) with "
         "n*k <= 4 (quick: n, k <= 3), in 8 (k=1) / 4 (k>1) layouts, both "
-        "functions; non-trivial = some estimate differs from its "
-        "observation. shapes: every (y_tau shape, y_test shape, taus form) "
+        "functions, in the first layout also with y_tau and/or y_test as "
+        "int64 where integral; non-trivial = some estimate differs from its "
+        "observation. scaled: the pointwise cases with n*k <= 2 (quick) / 3 "
+        "(thorough) x a common factor of y and estimates from {1, 1e-8, "
+        "1e-9, 1e-12, 1e-30, 1e-300, 1e30, 1e300, 2^-40, 2^40} (factor 1 only "
+        "where all values are 0), in the first and the last layout, in the "
+        "first one with y_tau and y_test as "
+        "every pair of {float64, float32, int64, int32, int16} arrays that "
+        "hold the scaled values exactly; same non-trivial rule. shapes: "
+        "every (y_tau shape, y_test shape, taus form) "
         "from 20 x 12 x 9 shapes with sides 1..4, the documented ones with "
         "125 fillings; non-trivial = documented layout or size-inconsistent "
         "(an outcome is demanded). percent: every sequence of <= 4 (quick) / "
-        "5 (thorough) truths from {+-1, +-2, 0.5, 1e6} with a uniform offset "
-        "from {0, +-1, +-10, 50} %, and every sequence of 2 (quick) / <= 3 "
-        "(thorough) (truth, offset) pairs with differing offsets, each x "
-        "{mape, bias} x scale {1, -3, 1e-3, 7} x layouts {both (n,), (n,1), "
-        "(1,n), (n/2,2); prediction (n,1) with truth (n,) and vice versa; "
-        "both (n,) with the prediction or the truth as int64 where its "
-        "values are integral}; non-trivial = some offset "
-        "!= 0. All cases are distinct by construction (products without "
-        "repetition).")
+        "5 (thorough) truths from {+-1, +-2, 0.5, 1e-9, 1e6} with a uniform "
+        "offset from {0, +-1, +-10, 50} %, and every sequence of 2 (quick) / "
+        "<= 3 (thorough) (truth, offset) pairs with differing offsets, each "
+        "x {mape, bias} x scale {1, -3, 1e-3, 7} x layouts {both (n,), "
+        "(n,1), (1,n), (n/2,2); prediction (n,1) with truth (n,) and vice "
+        "versa; both (n,) with the prediction or the truth as int64 where "
+        "its values are integral}; the sorted sequence in addition x scale "
+        "{1e-8, 1e-9, 1e-12, 1e-30, 1e-300, 1e30, 1e300, 2^-40, 2^40} (all "
+        "13 scales; scalings leaving the normal float64 range are skipped "
+        "and counted) x the layouts above and both (n,) or both (n,1) with "
+        "the prediction, the truth or both as {int64, int32, int16, float32} "
+        "where that dtype holds the values exactly; non-trivial = some "
+        "offset != 0. All cases are distinct by construction (products "
+        "without repetition).")
 ASSUMPTIONS = [
     "sample values are dyadic rationals (small parts: differences are exact "
-    "in float64; large samples: one rounding of the difference); the "
+    "in float64; large samples and scaled values: one rounding of the "
+    "difference); the "
     "tolerance (4 ulp per loss, n+4 ulp per mean of non-negative terms) "
     "covers the roundings of d, tau*|d|, (1-tau)*|d| and the summation only",
     "the oracle is exact rational arithmetic on the float inputs; a "
     "tau-quantile is a c with #(y<c) <= tau*n <= #(y<=c)",
     "y_tau and y_test are numpy arrays of float64 or - in the first layout of "
-    "every case with integral values - int64 (lists, NaN, empty arrays and "
-    "float32 are not exercised); samples have <= 6 values exhaustively, "
-    "1023 and 10^4 values with one sample each; the taus in one vector are "
-    "all from T or all from E",
+    "a case, where the dtype holds the values exactly - int64 (pointwise), "
+    "float32 / int64 / int32 / int16 (scaled, large); lists, Python scalars, "
+    "0-d arrays, NaN and empty arrays are not exercised (the statement "
+    "speaks of arrays of shape (n,), (n,1), (n,k)); samples have <= 6 "
+    "values exhaustively, 1023 and 10^4 values with one sample each; the "
+    "taus in one vector are all from T or all from E",
+    "float32 and integer arguments: the sample values and their differences "
+    "are exact in those dtypes, so the float64 tolerance applies; only a "
+    "result that itself is float32 while no argument was float64 is held to "
+    "float32 ulps",
+    "common factors are applied to the small pointwise cases only (the loss "
+    "is computed element by element); the minimiser and the large samples "
+    "are not rescaled. The oracle is the exact loss of the scaled float64 "
+    "values, which contains positive homogeneity",
     "a constant counts as a minimiser if its float mean loss is within "
     "1e-12 of the lowest, relative to the largest loss of a candidate; the "
     "generator asserts (harness error) that no exact loss of a non-quantile "
     "lies within 1e-9 of the minimum, also for the large samples",
-    "mape/bias: int64 arrays only as 1-D vectors and only one of the two "
-    "arguments at a time",
+    "mape/bias: arrays of another dtype than float64 only as (n,) or (n,1) "
+    "and, if both, with the same dtype; the 9 wide scales and these dtypes "
+    "only for the sorted order of a sample; with both arguments float32 "
+    "typhon may compute in float32: n+4 float32 ulps of the largest offset "
+    "are added to the tolerance. Subnormal values, Python scalars, lists and "
+    "0-d arrays are not exercised (the statement speaks of truth vectors, "
+    "the documentation of numpy arrays)",
     "shape combinations whose sizes agree (y_tau.size == y_test.size * "
     "taus.size) but whose axes do not follow the documented (n, k) layout "
     "are accepted with any outcome (the statement does not say which reading "
@@ -92,6 +126,9 @@ EXTREME_TAUS = (1e-3, 0.999)
 MIN_TAUS = EXTREME_TAUS[:1] + TAUS + EXTREME_TAUS[1:]     # minimiser, large
 LARGE_SIZES = (1023, 10 ** 4)
 EPS = F(1, 2 ** 52)
+EPS32 = F(1, 2 ** 23)
+SCALED = (1,) + c19_percent.WIDE_SCALES
+ALL_DTYPES = ("float32", "int64", "int32", "int16")
 
 
 # ---------------------------------------------------------------- oracle
@@ -103,9 +140,9 @@ def pinball(tau, q, y):
     return tau * -d if d < 0 else (1 - tau) * d
 
 
-def close(obs, exact, ulps):
+def close(obs, exact, ulps, eps=EPS):
     return math.isfinite(obs) and \
-        abs(F(float(obs)) - exact) <= ulps * EPS * abs(exact)
+        abs(F(float(obs)) - exact) <= ulps * eps * abs(exact)
 
 
 @functools.lru_cache(maxsize=2)
@@ -127,9 +164,10 @@ def is_quantile(c, y, tau):
     return below <= tau * len(y) <= upto
 
 
-def judge_scores(out, y, est, taus):
+def judge_scores(out, y, est, taus, eps=EPS):
     """out = quantile_score(...) for observations y (n), estimates est
-    (n rows of k) and taus (k). None or (key, expected, observed, msg)."""
+    (n rows of k) and taus (k); eps = the precision the result is held to.
+    None or (key, expected, observed, msg)."""
     n, k = len(y), len(taus)
     if np.shape(out) != (n, k):
         return ("quantile_score/result-shape", [n, k], list(np.shape(out)),
@@ -143,13 +181,13 @@ def judge_scores(out, y, est, taus):
         if (obs == 0) != (exact == 0):
             return ("quantile_score/zero-iff-equal", float(exact), obs,
                     "element (%d, %d)" % (i, j))
-        if not close(obs, exact, 4):
+        if not close(obs, exact, 4, eps):
             return ("quantile_score/not-pinball", float(exact), obs,
                     "element (%d, %d)" % (i, j))
     return None
 
 
-def judge_means(out, y, est, taus):
+def judge_means(out, y, est, taus, eps=EPS):
     n, k = len(y), len(taus)
     if np.shape(out) != (k,):
         return ("mean_quantile_score/result-shape", [k],
@@ -157,7 +195,7 @@ def judge_means(out, y, est, taus):
     for j in range(k):
         exact = sum(pinball(F(taus[j]), est[i][j], y[i])
                     for i in range(n)) / n
-        if not close(out[j], exact, n + 4):
+        if not close(out[j], exact, n + 4, eps):
             return ("mean_quantile_score/not-mean-pinball", float(exact),
                     float(out[j]), "column %d" % j)
     return None
@@ -172,21 +210,19 @@ def call(func, y_tau, y_test, taus):
     return getattr(scores, func)(y_tau, y_test, taus)
 
 
-def integral(values):
-    return all(float(v).is_integer() for v in np.ravel(values))
+@functools.lru_cache(maxsize=64)
+def representable(values, dtype):
+    """Does an array of dtype hold the float64 values exactly?"""
+    a = np.array(values, dtype=float)
+    with np.errstate(all="ignore"):
+        return np.array_equal(a.astype(dtype).astype(float), a)
 
 
-def dtype_variants(y, est):
-    """(dtype of y_tau, dtype of y_test): float always, integer arrays where
-    the values allow it (estimates / observations given as counts)."""
-    out = [(float, float)]
-    if integral(est):
-        out.append(("int64", float))
-    if integral(y):
-        out.append((float, "int64"))
-    if integral(est) and integral(y):
-        out.append(("int64", "int64"))
-    return out
+def dtype_variants(y, est, kinds):
+    """(dtype of y_tau, dtype of y_test): float64 always, the other kinds
+    where they hold the values exactly (e.g. counts as integer arrays)."""
+    return [(a, b) for a, b in itertools.product((float,) + kinds, repeat=2)
+            if representable(est, a) and representable(y, b)]
 
 
 def run_layout(func, y, est, taus, layout, dtypes=(float, float)):
@@ -212,15 +248,14 @@ def layouts(k):
     return list(itertools.product((2,), (1, 2), ("list", "array")))
 
 
-def check_documented(y, est, taus, which=None):
-    """The case in every layout (or only `which`), both functions."""
+def check_documented(y, est, taus, which=None, kinds=("int64",)):
+    """The case in every layout (or only those in `which`), both functions;
+    in the first layout also as arrays of the other dtype `kinds`."""
+    variants = dtype_variants(y, est, kinds)
     for func, judge in JUDGES.items():
         verified = None
-        for li, layout in enumerate([which] if which
-                                    else layouts(len(taus))):
-            # integer-typed arrays in the first layout of every case
-            for dtypes in (dtype_variants(y, est) if li == 0
-                           else [(float, float)]):
+        for li, layout in enumerate(which or layouts(len(taus))):
+            for dtypes in (variants if li == 0 else variants[:1]):
                 out, exc = run_layout(func, y, est, taus, layout, dtypes)
                 where = "layout %r dtypes %r" % (layout, dtypes)
                 if exc is not None:
@@ -231,7 +266,11 @@ def check_documented(y, est, taus, which=None):
                         np.shape(out) == verified.shape \
                         and np.array_equal(out, verified):
                     continue
-                bad = judge(out, y, est, taus)
+                # typhon may compute in single precision where no argument
+                # is float64
+                single = np.asarray(out).dtype == np.float32 \
+                    and float not in dtypes
+                bad = judge(out, y, est, taus, EPS32 if single else EPS)
                 if bad is not None:
                     return bad[:3] + ((bad[3] + " " + where).strip(),)
                 verified = np.asarray(out)
@@ -331,7 +370,7 @@ def run_minimiser(res, n, prefix):
 
 # ---------------------------------------------------------------- large
 
-LARGE_LAYOUT = (2, 1, "array")
+LARGE_LAYOUTS = [(2, 1, "array")]
 
 
 def large_sample(n):
@@ -353,13 +392,17 @@ def shifted(y):
                  for i in range(len(y)))
 
 
+def check_large(y):
+    return check_documented(y, shifted(y), MIN_TAUS, LARGE_LAYOUTS,
+                            ALL_DTYPES)
+
+
 def run_large(res, n):
     y = large_sample(n)
     minimiser_cases(res, y, dict(part="large-minimiser", n=n))
     res.case(nontrivial=True)
     case = dict(part="large-pointwise", n=n)
-    report(res, case, check_documented(y, shifted(y), MIN_TAUS, LARGE_LAYOUT),
-           lambda: check_documented(y, shifted(y), MIN_TAUS, LARGE_LAYOUT))
+    report(res, case, check_large(y), lambda: check_large(y))
     res.sample(dict(part="large", n=n, distinct=len(multiplicities(y)),
                     candidates=candidates(y)))
 
@@ -390,6 +433,41 @@ def run_pointwise(res, n, k, prefix):
             case = dict(part="pointwise", y=y, est=est, taus=taus)
             report(res, case, check_documented(y, est, taus),
                    lambda: check_documented(y, est, taus))
+    res.sample(case)
+
+
+# --------------------------------------------------------------- scaled
+
+def scaled_shapes(tier):
+    return [(n, k) for n, k in pointwise_shapes(tier)
+            if n * k <= (2 if tier == "quick" else 3)]
+
+
+def check_scaled(y, est, taus, scale):
+    """The case with every value multiplied by scale, in the first and the
+    last layout, in the first one as every dtype that holds the values."""
+    every = layouts(len(taus))
+    return check_documented(
+        tuple(v * scale for v in y),
+        tuple(tuple(v * scale for v in row) for row in est), taus,
+        [every[0], every[-1]], ALL_DTYPES)
+
+
+def run_scaled(res, n, k, prefix):
+    case = None
+    for rest in itertools.product(VALUES, repeat=n + n * k - len(prefix)):
+        y, est = (prefix + rest)[:n], rows((prefix + rest)[n:], k)
+        differs = any(est[i][j] != y[i] for i in range(n) for j in range(k))
+        # zeros only: every factor gives the same case
+        scales = SCALED if any(prefix + rest) else SCALED[:1]
+        for taus, scale in itertools.product(
+                itertools.chain(itertools.product(TAUS, repeat=k),
+                                itertools.product(EXTREME_TAUS, repeat=k)),
+                scales):
+            res.case(nontrivial=differs)
+            case = dict(part="scaled", y=y, est=est, taus=taus, scale=scale)
+            report(res, case, check_scaled(y, est, taus, scale),
+                   lambda: check_scaled(y, est, taus, scale))
     res.sample(case)
 
 
@@ -459,8 +537,8 @@ def run_shapes(res, tshape):
                 res.case(nontrivial=True)
                 case = dict(part="documented", y=y, est=est, taus=taus,
                             layout=layout)
-                report(res, case, check_documented(y, est, taus, layout),
-                       lambda: check_documented(y, est, taus, layout))
+                report(res, case, check_documented(y, est, taus, [layout]),
+                       lambda: check_documented(y, est, taus, [layout]))
     res.sample(case)
 
 
@@ -485,6 +563,9 @@ def shards(tier, seed):
     for n, k in pointwise_shapes(tier):
         out.extend(("pointwise", n, k, prefix) for prefix in
                    itertools.product(VALUES, repeat=min(3, n + n * k)))
+    for n, k in scaled_shapes(tier):
+        out.extend(("scaled", n, k, prefix) for prefix in
+                   itertools.product(VALUES, repeat=min(3, n + n * k)))
     out.extend(("shapes", tshape) for tshape in Y_TAU_SHAPES)
     out.extend(("large", n) for n in LARGE_SIZES)
     out.extend(c19_percent.shards(tier))
@@ -498,6 +579,8 @@ def run_shard(shard):
         run_minimiser(res, *shard[1:])
     elif shard[0] == "pointwise":
         run_pointwise(res, *shard[1:])
+    elif shard[0] == "scaled":
+        run_scaled(res, *shard[1:])
     elif shard[0] == "shapes":
         run_shapes(res, shard[1])
     elif shard[0] == "large":
@@ -521,13 +604,15 @@ def replay(case):
         bad = check_minimiser(large_sample(case["n"]), case["tau_index"],
                               case["matrix"])
     elif part == "large-pointwise":
-        y = large_sample(case["n"])
-        bad = check_documented(y, shifted(y), MIN_TAUS, LARGE_LAYOUT)
+        bad = check_large(large_sample(case["n"]))
     elif part == "pointwise":
         bad = check_documented(case["y"], case["est"], case["taus"])
     elif part == "documented":
         bad = check_documented(case["y"], case["est"], case["taus"],
-                               case["layout"])
+                               [case["layout"]])
+    elif part == "scaled":
+        bad = check_scaled(case["y"], case["est"], case["taus"],
+                           case["scale"])
     elif part == "shapes":
         bad = check_inconsistent(case["y_tau"], case["y_test"], case["taus"],
                                  case["k"])
